@@ -518,8 +518,14 @@ class FLAE:
         if method.lower() == 'symbolic':
             # Parameters (eq. 53)
             T0 = 2*t1**3 + 27*t2**2 - 72*t1*t3
-            T1 = np.cbrt(T0 + np.emath.sqrt(-4*(t1**2 + 12*t3)**3 + T0**2).real)
-            T2 = np.sqrt(abs(-4*t1 + np.cbrt(16)*(t1**2 + 12*t3)/T1 + np.cbrt(4)*T1))
+            D = -4*(t1**2 + 12*t3)**3 + T0**2
+            if D < 0:
+                # Four real roots: T1 is complex, but T2 is real
+                T1 = (T0 + np.emath.sqrt(D))**(1.0/3.0)
+                T2 = np.sqrt(abs((-4*t1 + np.cbrt(16)*(t1**2 + 12*t3)/T1 + np.cbrt(4)*T1).real))
+            else:
+                T1 = np.cbrt(T0 + np.sqrt(D))
+                T2 = np.sqrt(abs(-4*t1 + np.cbrt(16)*(t1**2 + 12*t3)/T1 + np.cbrt(4)*T1))
             # Solutions to polynomial (eq. 52)
             L = np.zeros(4)
             L[0] =   T2 - np.sqrt(abs(-T2**2 - 12*t1 - 12*np.sqrt(6)*t2/T2))
